@@ -445,6 +445,26 @@ func (w *World) SnapshotTick(id uint64) {
 	w.Quiesce()
 }
 
+// SnapshotTickWith fires the snapshot tickers of all live nodes while the given proposals (on node id) are still on
+// their way into the group: tick and writes reach the ready loop in the same burst of activity.
+func (w *World) SnapshotTickWith(id uint64, datas [][]byte) {
+	for _, t := range w.S.Timers() {
+		if t.Kind == "ticker" && t.D == 10*time.Second && t.Armed() && !w.node(nodeOf(t.Creator)).Crashed {
+			w.S.Fire(t)
+		}
+	}
+	n := w.node(id)
+	ctx, cancel := vctx.WithCancel(context.Background())
+	for _, data := range datas {
+		data := data
+		w.seq++
+		w.S.Spawn(fmt.Sprintf("n%d/propose#%d", id, w.seq), false, func() { n.Group.Propose(ctx, data) })
+	}
+	w.Quiesce()
+	cancel()
+	w.Quiesce()
+}
+
 // Propose proposes data on node id; returns false if the proposal could not be handed to raft
 // (no leader known: the call is cancelled rather than left hanging).
 func (w *World) Propose(id uint64, data []byte) bool {
